@@ -111,9 +111,12 @@ def scenario(kind, res, lean_lines, meta):
                 time.sleep(0.01)
             time.sleep(0.16)
 
+        made = []
+
         def touch(rel):
             fd = os.open(P(rel), os.O_CREAT | os.O_EXCL | os.O_WRONLY)
             os.close(fd)
+            made.append(rel)
 
         for n in NAMES[1:4]:
             step(lambda n=n: touch(n), n)
@@ -167,11 +170,16 @@ def scenario(kind, res, lean_lines, meta):
                                 + " ".join(hexs(c) for c in comps) + " 0").replace("  ", " ")
                     lean_lines.append(line)
                     meta.append((full_kind, backend, ("b:" if isinstance(p, bytes) else "s:") + (rootB + (b"/" + rel if rel else b"")).hex(), repr(p)))
-        only_n = {p for p in created["native"] - created["polling"]}
-        only_p = {p for p in created["polling"] - created["native"]}
-        if only_n or only_p:
-            return (f"the native and the polling observer disagree on the created paths: native only {sorted(map(repr, only_n))[:4]}, "
-                    f"polling only {sorted(map(repr, only_p))[:4]} (root given as {full_kind})")
+        # every file the history made is announced by BOTH backends under its exact name (the bytes the file system holds,
+        # joined onto the root as given).  The two sets of created paths need not be equal beyond that: a polling walk that
+        # races a directory rename legitimately reports the directory's files as deleted and, one poll later, as created
+        # under the new name
+        for backend in ("native", "polling"):
+            got = {os.fsencode(p) for p in created[backend]}
+            missing = sorted(rel for rel in made if (rootB + b"/" + rel) not in got and (rootB.rstrip(b"/") + b"/" + rel) not in got)
+            if missing:
+                return (f"{backend}: the created files {missing[:4]!r} were never announced under their exact names "
+                        f"(root given as {full_kind}; created paths seen: {sorted(map(repr, created[backend]))[:6]})")
         return None
     finally:
         for o in observers:
